@@ -20,7 +20,9 @@ var c06Tokens = []string{"x", "$", "$$", "$A", "${X}", "$(c)", "$1", "a$b", "$a"
 
 var c06Plain = []string{"x", "$", "$A", "${X}", "$(c)", "$1", "a$b", `$"x`, `$"{a}`, "$_a", "$-x",
 	// directive-shaped text behind leading white space is plain text; a dollar at the very end
-	" $env:HOME", "\t$repeat", ` $"{a}"`, " $required", "5$"}
+	" $env:HOME", "\t$repeat", ` $"{a}"`, " $required", "5$",
+	// the character after the dollar is multi-byte
+	"$€", "$日本", "$😀x"}
 
 var c06Small = []string{"x", "$", "$$", "$a", "$merge:x", `$"{a}"`, "$required", "$delete", "$replace", "$match", "$output", "$repeat", "$env:HOME"}
 
@@ -41,7 +43,7 @@ func buildC06(tier string) *core.Plan {
 	if tier == "thorough" {
 		nPlain, nFull, nSmall = 5, 3, 4
 	}
-	plainA := gen.Alphabet{Scalars: strScalars(c06Plain, nil, 1, true, 1.5), Keys: []string{"x", "$A", "a$b", "${X}", `$"x`}, MaxList: 3, MaxMap: 3}
+	plainA := gen.Alphabet{Scalars: strScalars(c06Plain, nil, 1, true, 1.5), Keys: []string{"x", "$A", "a$b", "${X}", `$"x`, "", "$€"}, MaxList: 3, MaxMap: 3}
 	fullA := gen.Alphabet{Scalars: strScalars(c06Tokens, nil, 1, true), Keys: c06Tokens, MaxList: 3, MaxMap: 2}
 	smallA := gen.Alphabet{Scalars: strScalars(c06Small, nil, 1), Keys: c06Small[:9], MaxList: 3, MaxMap: 3}
 
